@@ -53,6 +53,12 @@ Theorem C18_payout_formula_as_modelled :
   payout_guard_enabled = true /\ payout_guard_empty = true.
 Proof. vm_compute. repeat split; reflexivity. Qed.
 
+(** getAllowedFees adds a fee coin at most once, however often AllowedDenoms names its denom
+    (Params.Validate accepts repeated entries) — [Model.allowed_factor] with [e_allowed_once]. *)
+Theorem C18_allowed_fee_coin_counted_once :
+  allowed_fees_break_after_first_match = true /\ allowed_fees_adds_per_match = 1.
+Proof. vm_compute. split; reflexivity. Qed.
+
 (** Recipients are collected from the transaction's own message list only, and only from
     MsgExecuteContract messages: no unwrapping of carriers, no recursion. *)
 Theorem C18_recipients_top_level_only :
